@@ -369,7 +369,7 @@ def gen_object(rng, n_enums, big=False):
         bugs = ["BUG-211", "BUG-211 c", "BUG", "no bug", "BUG-xxx"] if repo == "parent+lib" else \
                ["BUG-111", "BUG-133", "BUG", "BUG-xxx", "BUG-177", "BUG-444"]
         return {"kind": "ghist", "repo": repo, "bug": rng.choice(bugs)}
-    return {"kind": "hdoc", "what": rng.choice(["cls", "obj", "derived", "method", "mcaller"]),
+    return {"kind": "hdoc", "what": rng.choice(["cls", "obj", "derived", "method", "mcaller", "noted", "noted_method"]),
             "level": rng.choice([1, 2])}
 
 
